@@ -145,6 +145,8 @@ impl Engine for FileE2e {
         let rng_seed = ch.choose(1 << 30) as u64;
 
         let sched = Sched::new(std::mem::replace(ch, Choices::from_record(&[])), ctx.want_trace, 200_000);
+        // running code takes time: consecutive clock readings differ (by a nanosecond), so "elapsed" is never zero
+        sched.lock().clock_reading_cost_ns = 1;
         let prev = simthread::enter(&sched);
         sched.log(format!(
             "config: sets={} events={n_events} fault_budget={fault_budget} stall_mode={stall_mode} reuse={reuse} max_size={max_size} final_flush={final_flush} writer_kind={writer_kind} holder={holder}",
